@@ -57,7 +57,7 @@ CLAIMED = {
  "C04": dict(
   level="other",
   technique="static analysis: bit-provenance abstract interpretation of every Unmarshal compared with RFC layout tables; numeric abstract interpretation for the count guards",
-  text="For all inputs at once: the map field bit <- input octet/bit at the successful returns of 14 decoders equals the RFC layout (each field from exactly its wire bits, upper bits zero, no dependency on reserved bits); CNT - SR, RR, SDES and BYE return nil only if the number of decoded elements equals the header count (BYE: and the announced sources lie inside the packet); ACC - 28 RFC-valid boundary shapes (fixed length, a few fixed octets, everything else arbitrary: padded APP, BYE with/without reason, empty lists, minimal feedback packets, alternative TWCC chunkings, an unknown XR block, a padded frame followed by another) are evaluated by constant propagation and none may be rejected on every path (this proves rejections, it does not prove acceptance); FRESH - at the 13 places where a decoder appends a composite element inside a loop, the element is allocated (or wholly re-assigned) inside that loop, so no field or slice of the previous element can leak into the next; XR - unpackBlockHeader takes each field from its RFC 3611 bits, unknown block types reach UnknownReportBlock, blocks are split at 4*(BlockLength+1). The VALUES that alternative encodings decode to where they depend on run-time arithmetic (TWCC chunkings, REMB normalisation, APP data length, BYE reason text) are not covered.",
+  text="For all inputs at once: the map field bit <- input octet/bit at the successful returns of 14 decoders equals the RFC layout (each field from exactly its wire bits, upper bits zero, no dependency on reserved bits); CNT - SR, RR, SDES and BYE return nil only if the number of decoded elements equals the header count (BYE: and the announced sources lie inside the packet); ACC - 39 RFC-valid boundary shapes (fixed length, a few fixed octets, everything else arbitrary: padded APP, BYE with/without reason, empty lists, minimal feedback packets, alternative TWCC chunkings, an unknown XR block, a padded frame followed by another) are evaluated by constant propagation and none may be rejected on every path (this proves rejections, it does not prove acceptance); FRESH - at the 13 places where a decoder appends a composite element inside a loop, the element is allocated (or wholly re-assigned) inside that loop, so no field or slice of the previous element can leak into the next; XR - unpackBlockHeader takes each field from its RFC 3611 bits, unknown block types reach UnknownReportBlock, blocks are split at 4*(BlockLength+1). The VALUES that alternative encodings decode to where they depend on run-time arithmetic (TWCC chunkings, REMB normalisation, APP data length, BYE reason text) are not covered.",
   note="Trusted: go/ssa, checker/bits, checker/num, layout tables.",
   design="DESIGN.md §2 C04"),
  "C02": dict(
